@@ -340,6 +340,41 @@ def _exe(n):
     return ["instr", getattr(e[0], "__name__", "?"), encv(list(e[1])), encv(dict(e[2]))]
 
 
+def _received(c):
+    """what an all-of trigger has heard so far, canonically: the library keeps scoped-label strings; anything
+    else (e.g. the emitting channel objects themselves) is rendered by type and scoped label, never compared raw"""
+    out = []
+    for x in getattr(c, "received_signals", []) or []:
+        if isinstance(x, str):
+            out.append(x)
+        else:
+            owner = getattr(x, "owner", None)
+            out.append(f"obj:{type(x).__name__}:{getattr(owner, 'label', '?')}__{getattr(x, 'label', '?')}")
+    return sorted(out)
+
+
+def outside_nodes(node):
+    """labels of the node objects that travel along when `node` is pickled although they are not part of its own
+    sub-tree (a node serialised on its own must not drag its parent or siblings with it)"""
+    import io
+    from pyiron_workflow.node import Node
+    own = {id(x) for x in all_nodes(node)}
+    found = {}
+
+    class _Spy(cloudpickle.CloudPickler):
+        def persistent_id(self, obj):
+            if isinstance(obj, Node) and id(obj) not in own:
+                found[id(obj)] = obj.label
+            return None
+    try:
+        _Spy(io.BytesIO()).dump(node)
+    except _Timeout:
+        raise
+    except Exception as e:
+        return ["?" + _exc(e)]
+    return sorted(found.values())
+
+
 def snap(n, listed_by=None):
     from pyiron_workflow import Workflow
     from pyiron_workflow.nodes.composite import Composite
@@ -364,7 +399,7 @@ def snap(n, listed_by=None):
         [pflag, [] if det is None else [det], int(own)],
         [[c.label, enc(c.value), [_cref(n, o) for o in c.connections], _recv(n, c)] for c in own_in],
         [[c.label, enc(c.value), [_cref(n, o) for o in c.connections], _recv(n, c)] for c in own_out],
-        [[c.label, [_cref(n, o) for o in c.connections], sorted(getattr(c, "received_signals", []))] for c in sins],
+        [[c.label, [_cref(n, o) for o in c.connections], _received(c)] for c in sins],
         [[c.label, [_cref(n, o) for o in c.connections]] for c in souts],
         [snap(c, listed_by=n) for c in n.children.values()] if comp else [],
         [s.label for s in n.starting_nodes] if comp else [],
@@ -516,10 +551,13 @@ def run_rt(case):
         ppath = [] if target.parent is None else [target.parent.lexical_path]
         cur = target
         after = None
+        extras = []
         try:
             for _ in range(case["trips"]):
                 cur = one_trip(cur, case["backend"], workdir)
             after = snap(cur)
+            if case["backend"] != "file":       # (a file load drags the throw-away instance along: known finding)
+                extras = outside_nodes(cur)
         except _Timeout:
             raise
         except Exception as e:
@@ -527,7 +565,7 @@ def run_rt(case):
         rr = []
         if case.get("rerun") and not case.get("target") and after[0] != "ERR":
             rr = [rerun(target), rerun(cur)]
-        return [before, after, rr, ppath]
+        return [before, after, rr, ppath, extras]
     except _Timeout:
         return "timeout"
     finally:
@@ -731,7 +769,7 @@ def flat_modelled(case, before):
 def _rt_term(case, obs):
     if obs == "timeout" or not _ascii(obs):
         return None
-    before, after, rr, ppath = obs
+    before, after, rr, ppath = obs[:4]
     bk = "BFile" if case["backend"] == "file" else "BPickle"
     rerun = flat_modelled(case, before) and bool(rr)
     return (f"obs_case {cn(case['trips'])} {bk} {cb(rerun)} {cn(FUEL)}\n ({ctx_coq(before[PAR], ppath)},\n {node_coq(before)})")
@@ -757,7 +795,7 @@ def model_view(case, obs):
         return [1, obs]
     if obs == "timeout":
         return obs
-    before, after, rr, ppath = obs
+    before, after, rr, ppath = obs[:4]
     rerun = flat_modelled(case, before) and bool(rr)
     return [1, after, [_rrview(rr[0]), _rrview(rr[1])] if rerun else []]
 
@@ -833,11 +871,14 @@ def compare(b, a, root, where, out):
 def failures(case, obs):
     if obs == "timeout":
         return [("timeout", "the scenario did not finish")]
-    before, after, rr, ppath = obs
+    before, after, rr, ppath = obs[:4]
     out = []
     if after and after[0] == "ERR":
         return [("load-error", f"saving/loading raised {after[1]}")]
     compare(before, after, True, [], out)
+    if len(obs) > 4 and obs[4]:
+        out.append(("dragged-along", f"the node was pickled together with {len(obs[4])} node object(s) outside its own "
+                                     f"sub-tree (parent / siblings): {obs[4][:6]}"))
     if rr:
         o, r = rr
         if o[0] != r[0]:
@@ -1128,7 +1169,9 @@ def gen_rt(rng):
     if post:
         case["post"] = post
     if g["root"] == "wf" and backend != "file" and rng.random() < 0.15:
-        case["target"] = [rng.choice(ns)["l"]]
+        accs = sorted({d for (_, d, m) in g.get("sig", []) if m == "accumulate_and_run"})
+        # prefer a child whose all-of trigger may be mid-round (it has heard some of its siblings)
+        case["target"] = [ns[rng.choice(accs)]["l"]] if accs and rng.random() < 0.6 else [rng.choice(ns)["l"]]
     elif not g.get("cyclic"):
         case["rerun"] = rng.random() < 0.75
     return case
@@ -1244,7 +1287,7 @@ def distribution(results):
             d["node_types"][nd["t"]] = d["node_types"].get(nd["t"], 0) + 1
         if c.get("target"):
             d["child_alone"] += 1
-        if o == "timeout" or not isinstance(o, list) or len(o) != 4:
+        if o == "timeout" or not isinstance(o, list) or len(o) < 4:
             d["timeouts"] += 1
             continue
         if o[2]:
